@@ -151,7 +151,7 @@ pub fn scenarios(tier: &str) -> Vec<Scenario> {
     let bodies: Vec<(&str, Box<dyn Fn() -> BodySpec>)> = vec![
         ("4k-chunks", Box::new(move || BodySpec::BodyStream((0..(big / 4096)).map(|_| Chunk::Data(fill(4096))).collect()))),
         ("1m-chunks", Box::new(move || BodySpec::BodyStream((0..(big >> 20).max(2)).map(|_| Chunk::Data(fill(1 << 20))).collect()))),
-        ("1b-chunks", Box::new(move || BodySpec::BodyStream((0..(if big > (1 << 20) { 300_000 } else { 60_000 })).map(|_| Chunk::Data(b"y".to_vec())).collect()))),
+        ("1b-chunks", Box::new(move || BodySpec::BodyStream((0..(if big > (2 << 20) { 300_000 } else { 20_000 })).map(|_| Chunk::Data(b"y".to_vec())).collect()))),
         ("sized-4k-chunks", Box::new(move || BodySpec::SizedStream(big as u64, (0..(big / 4096)).map(|_| Chunk::Data(fill(4096))).collect()))),
     ];
     for (bn, mk) in &bodies {
